@@ -12,7 +12,7 @@ git -C $W apply $OUT/patch.diff || { echo "PATCH DOES NOT APPLY"; git -C /repo w
 echo "--- demo on the changed tree:"
 (cd $W && PYTHONPATH=$W timeout 600 /venv/bin/python $OUT/demo.py >/tmp/verify_${P}_demo1.log 2>&1; echo "exit=$?")
 echo "--- repository suite with the change:"
-/tmp/seedtools/baseline.py $W | head -5
+/venv/bin/python /verif/tools/baseline_at.py $W | head -5
 git -C /repo worktree remove --force $W
 echo "--- checks against /repo with the change applied:"
 /verif/tools/try_patch.sh $OUT/patch.diff $PROPS
